@@ -167,7 +167,17 @@ fn pair_strategy(v: vmodel::Variant) -> BoxedStrategy<(String, String)> {
             (l, r)
         }
     });
-    prop_oneof![3 => independent, 2 => related].boxed()
+    // extremal pairs: the distance is exactly the variant's maximum (an off-by-one bound, a clamp
+    // or an assertion `< max` shows only there), and near-extremal ones
+    let extremal = (any::<u8>(), any::<bool>(), any::<bool>(), proptest::option::of((any::<u16>(), any::<u8>()))).prop_map(move |(fill, with_a, with_b, dent)| {
+        let (a, mut b) = super::c08::witness_pair(v, fill);
+        if let Some((pos, x)) = dent {
+            let i = gens::idx(pos, b.len());
+            b[i] ^= x;
+        }
+        (String::from_utf8(vmodel::text::encode(v, &a, with_a)).unwrap(), String::from_utf8(vmodel::text::encode(v, &b, with_b)).unwrap())
+    });
+    prop_oneof![6 => independent, 4 => related, 1 => extremal].boxed()
 }
 
 fn run_pairs(ctx: &Ctx) -> CheckResult {
